@@ -1,0 +1,20 @@
+//go:build verif
+
+package psql
+
+import (
+	"github.com/bmeg/grip/timestamp"
+	"github.com/jmoiron/sqlx"
+)
+
+// NewGraphDBVerif builds a GraphDB around an injected database handle (verification harness only).
+func NewGraphDBVerif(db *sqlx.DB) *GraphDB {
+	ts := timestamp.NewTimestamp()
+	return &GraphDB{db: db, ts: &ts}
+}
+
+// NewGraphVerif builds a Graph around an injected database handle and the given table names.
+func NewGraphVerif(db *sqlx.DB, vertexTable, edgeTable, graph string) *Graph {
+	ts := timestamp.NewTimestamp()
+	return &Graph{db: db, ts: &ts, v: vertexTable, e: edgeTable, graph: graph}
+}
